@@ -39,6 +39,7 @@ type Solver struct {
 	FallbackTimeout int // seconds
 	Fallbacks       int
 	FeasUnknown     int
+	BadModels       int
 	FallbackSolved  int
 	// statistics
 	Queries    int
@@ -345,9 +346,8 @@ func (s *Solver) CheckFeasible(t *Term, syms []*Term) (Result, map[string]uint64
 		s.TimeoutMs = s.FeasMs
 	}
 	defer func() { s.TimeoutMs = saved }()
-	s.define(t)
 	s.Push()
-	s.send("(assert " + Ref(t) + ")")
+	s.Assert(t)
 	r := s.Check()
 	var m map[string]uint64
 	if r == Sat && syms != nil {
@@ -358,26 +358,63 @@ func (s *Solver) CheckFeasible(t *Term, syms []*Term) (Result, map[string]uint64
 		s.Unknowns--
 		s.FeasUnknown++
 	}
+	if r == Sat && m != nil && !s.validModel(m, t) {
+		s.BadModels++
+		m = nil
+	}
 	return r, m
+}
+
+// validModel checks that m satisfies every assertion on the stack (and extra).
+// Models returned after tactic-based checks are not always trustworthy.
+func (s *Solver) validModel(m map[string]uint64, extra *Term) bool {
+	memo := map[*Term]uint64{}
+	for _, fr := range s.frames {
+		for _, t := range fr {
+			if Eval(t, m, memo) == 0 {
+				return false
+			}
+		}
+	}
+	if extra != nil && Eval(extra, m, memo) == 0 {
+		return false
+	}
+	return true
 }
 
 // CheckAssumingModel is CheckAssuming that also returns a model for syms when sat
 // (syms == nil: no model wanted). An incremental "unknown" is retried as a
 // stand-alone query on fresh solver processes (different strategies apply there).
+// Every model is validated by evaluation; an invalid one is replaced through the
+// stand-alone path, and a disagreement between solvers is reported as unknown.
 func (s *Solver) CheckAssumingModel(t *Term, syms []*Term) (Result, map[string]uint64) {
-	s.define(t)
 	s.Push()
-	s.send("(assert " + Ref(t) + ")")
+	s.Assert(t)
 	r := s.Check()
 	var m map[string]uint64
 	if r == Sat && syms != nil {
 		m = s.Model(syms)
 	}
 	s.Pop(1)
+	if r == Sat && syms != nil && !s.validModel(m, t) {
+		s.BadModels++
+		r2, m2 := s.oneShot(t, syms)
+		if s.Log != nil {
+			fmt.Fprintf(s.Log, "; ---- bad model (one-shot says %v) model=%v ----\n%s; ---- end ----\n", r2, m, s.queryText(t, syms))
+		}
+		switch {
+		case r2 == Sat && s.validModel(m2, t):
+			return Sat, m2
+		default:
+			s.Unknowns++
+			s.LastErr = "model validation failed and stand-alone solvers did not produce a valid model"
+			return Unknown, nil
+		}
+	}
 	if r == Unknown && len(s.FallbackKinds) > 0 {
 		s.Fallbacks++
 		r2, m2 := s.oneShot(t, syms)
-		if r2 != Unknown {
+		if r2 == Unsat || (r2 == Sat && (syms == nil || s.validModel(m2, t))) {
 			s.FallbackSolved++
 			s.Unknowns--
 			return r2, m2
@@ -392,10 +429,18 @@ func (s *Solver) CheckStack(syms []*Term) (Result, map[string]uint64) {
 	var m map[string]uint64
 	if r == Sat && syms != nil {
 		m = s.Model(syms)
+		if !s.validModel(m, nil) {
+			s.BadModels++
+			r = Unknown
+			m = nil
+		}
 	}
 	if r == Unknown && len(s.FallbackKinds) > 0 {
 		s.Fallbacks++
 		r2, m2 := s.oneShot(nil, syms)
+		if r2 == Sat && syms != nil && !s.validModel(m2, nil) {
+			r2 = Unknown
+		}
 		if r2 != Unknown {
 			s.FallbackSolved++
 			s.Unknowns--
